@@ -8,7 +8,7 @@ states are inserted at the same index.
 from __future__ import annotations
 
 import ast
-from typing import List, Optional, Set, Tuple
+from typing import Dict, List, Optional, Set, Tuple
 
 from oqv import roles
 from oqv.astutil import branch_context, call_name, method_call
@@ -413,6 +413,93 @@ def g4(prog: Program, chk: Check) -> None:
                     "system dynamics are labelled with a different time than the field", c)
 
 
+# --------------------------------------------------------------------- G5
+def g5(prog: Program, chk: Check) -> None:
+    chk.rule("G5", "the step counter that labels the recorded states moves only after the state "
+             "of that step exists: in a step transaction no write of a `_step` counter precedes a "
+             "call of a user-supplied callable (Hamiltonian, rates, field equation) on any path - "
+             "otherwise a failing callable leaves the counter ahead and a resumed computation "
+             "skips one grid time and labels every later state one step late", floor=3)
+    from rules import c14
+    eff = c14.Effects(prog, chk)
+    n = 0
+    for q in c14.TRANSACTIONS:
+        u = prog.unit(q)
+        s_ = eff.summary(u)
+        fn = q.split(":")[1]
+        step_pairs = {(w, f): o for (w, f), o in s_["pairs"].items() if "_step" in w.split(" ")[0]}
+        n += 1
+        if not step_pairs:
+            chk.add("G5", u, "no step counter is written before a foreign call", True,
+                    f"foreign calls {sorted(s_['F_all'])[:4]}")
+            continue
+        for (w, f), owner_q in sorted(step_pairs.items()):
+            owner = prog.unit(owner_q)
+            ofn = owner_q.split(":")[1]
+            w0 = w.replace(" (of a system back end)", "")
+            reason = c14.T3_EXCEPTIONS.get((ofn, w0, f)) or c14.T3_EXCEPTIONS.get((ofn, "*", f))
+            if reason:
+                # triaged under C14 T3 (loud on retry / idempotent): same table, same reasons
+                chk.add("G5", owner, f"write {w} before foreign call {f}", None,
+                        exception_reason=reason)
+                continue
+            chk.add("G5", owner, f"write {w} before foreign call {f}", False,
+                    f"if {f} raises, {w} is already advanced although no state was produced "
+                    f"(reached from transaction {fn})")
+    if n < 3:
+        raise AnalysisError("G5: step transactions vanished")
+
+
+def g6(prog: Program, chk: Check) -> None:
+    chk.rule("G6", "every grid time handed to a result container is recorded with its value: "
+             "along each path through Dynamics.add / MeanFieldDynamics.add the time list and the "
+             "value list are both inserted into or both left alone (alignment), and recorded "
+             "times are not compared through a relative tolerance (a tolerant 'already recorded' "
+             "test merges distinct grid times with numpy's default rtol once |t| > 1e5*dt)", floor=3)
+    from rules import c15
+    for q in ("dynamics:Dynamics.add", "dynamics:MeanFieldDynamics.add"):
+        u = prog.unit(q)
+        g = CFG(u.node, exc_edges=False)
+        chk.saw(u, g)
+        inserts: Dict[str, List[int]] = {}
+        for n in g.nodes:
+            for c in n.calls():
+                mc = method_call(c)
+                if mc and mc[1] == "insert" and mc[0].startswith("self._"):
+                    inserts.setdefault(mc[0], []).append(n.id)
+        if "self._times" not in inserts or len(inserts) < 2:
+            raise AnalysisError(f"G6: {q} no longer inserts into self._times and a value list")
+        rets = [n.id for n in g.nodes if n.kind == "stmt" and isinstance(n.ast, ast.Return)] + [g.exit]
+        t_nodes = inserts["self._times"]
+        for attr, nodes in sorted(inserts.items()):
+            if attr == "self._times":
+                continue
+            # a path that inserts the time but not the value, or the value but not the time
+            for (have, miss, what) in ((t_nodes, nodes, f"the time but not {attr}"),
+                                       (nodes, t_nodes, f"{attr} but not the time")):
+                p_ = None
+                for h in have:
+                    a = g.find_path([g.entry], lambda x, h=h: x == h,
+                                    blocked=lambda x, ms=miss: x in ms)
+                    b = g.find_path([h], lambda x: x in rets, blocked=lambda x, ms=miss: x in ms)
+                    if a is not None and b is not None:
+                        p_ = a + b[1:]
+                        break
+                chk.add("G6", u, f"no path inserts {what}", p_ is None,
+                        "" if p_ is None else "times and values get out of step on this path",
+                        path=None if p_ is None else g.describe_path(p_, u.loc)[-6:])
+    sites, n_cmp = c15.time_tolerance_sites(prog)
+    for (u, c, relative) in sites:
+        chk.add("G6", u, f"{norm(c)[:60]}", not relative,
+                "absolute tolerance only (merges nothing on a grid with dt above it)"
+                if not relative else
+                "recorded times are compared through a relative tolerance: grid times closer than "
+                "rtol*|t| (numpy's default 1e-5) are treated as one and the returned grid has "
+                "holes", c)
+    chk.add("G6", prog.module("dynamics"), f"{n_cmp} tolerant comparisons in dynamics.py, "
+            f"{len(sites)} on recorded times", True, "")
+
+
 def run(prog: Program, chk: Check) -> None:
     chk.explanation = (
         "Decides how floats become step counts and the polynomial form of every time label: "
@@ -428,3 +515,5 @@ def run(prog: Program, chk: Check) -> None:
     chk.call(g2_g3_steppers, prog, chk)
     chk.call(g3_front_ends, prog, chk)
     chk.call(g4, prog, chk)
+    chk.call(g5, prog, chk)
+    chk.call(g6, prog, chk)
